@@ -218,6 +218,9 @@ pub fn required_probes(prop: &str) -> Vec<&'static str> {
             "rule.P4.evaluated",
             "rule.P5.evaluated",
             "probe.launch_with_environment",
+            "entry.OptionParser_run",
+            "entry.Parser_run",
+            "entry.try_run",
             "probe.parser_owns_a_value_with_a_destructor",
             "probe.launch_with_a_terminal_on_one_stream",
             "real.tty_child",
@@ -268,6 +271,7 @@ pub fn required_probes(prop: &str) -> Vec<&'static str> {
             "rule.R10.evaluated",
             "probe.R10_value_from_variables_on_empty_line",
             "rule.R11.evaluated",
+            "rule.R13.evaluated",
             "probe.R8_name_shared_with_outer_level",
             "rule.T7.evaluated",
             "probe.read_found_variable_set",
